@@ -267,3 +267,13 @@ Proof.
   cbn [walk_kids]. fold (walk_kids spec_push (spec_unwrap (c_unwrap c)) ctx0 (KFn pre a name)). rewrite IH, app_nil_r.
   unfold spec_push. apply K. cbn [in_test ctx0 orb]. exact HT.
 Qed.
+
+(* ------------------------------------------------------------------ documented tables and options *)
+Lemma documented_tables :
+  blocking_fs_functions = fs_functions /\ blocking_net_types = net_types /\ async_wrapper_functions = wrapper_names /\
+  blocking_classes_of ideal = spec_blocking_classes /\
+  map fst unwrap_cfg = ["enabled"; "allow_in_tests"; "allow_expect"] /\
+  map fst clone_cfg = ["enabled"; "allow_in_tests"; "detect_clone_in_loop"; "detect_clone_chain"; "detect_unnecessary_clone"] /\
+  map fst blocking_cfg = ["enabled"; "allow_in_tests"; "detect_fs_in_async"; "detect_sleep_in_async"; "detect_net_in_async"] /\
+  forallb (fun e => String.eqb (fst e) (fst (snd e)) && snd (snd e)) (unwrap_cfg ++ clone_cfg ++ blocking_cfg) = true.
+Proof. repeat split. Qed.
